@@ -44,6 +44,9 @@ CLAIMED["C04"]=("Bounded symbolic execution of the real chain middlewares (list 
 CLAIMED["C03"]=("Bounded symbolic execution of the real evalPanFuncCall / assignArgsToEnv / paddedArgs / evalArgs / evalKwargs / evalFuncMethodCall / extractAnonChainRecv / evalAssign and Env operations through parsed programs: (a) all 12 parameter signatures against every solver-chosen argument layout (count, * unpacking, keyword positions, ** unpacking) with a closed-form binding oracle including \\0, \\_, \\N, \\ and \\name; (b) 14 scoping scenarios with symbolic int inputs whose expected values are closed-form, plus the check that the enclosing scope is unchanged afterwards.",
         TRUST,
         "SMT-decided bounded symbolic execution of go/ssa (z3); argument layouts enumerated by solver-decided choices")
+CLAIMED["C06"]=("Bounded symbolic execution of every built-in and native property reachable from the prototype chains of 10 live values (solver-chosen property name and argument), with a deep pointer-identity fingerprint of all live values compared after each operation, plus two-step sequences on arrays that share a receiver (first result fingerprinted, then a second array-building operation) with symbolic payloads; on every feasible path the fingerprints are discharged equal. Slice growth and spare capacity are those of the real runtime.",
+        TRUST,
+        "SMT-decided bounded symbolic execution of go/ssa (z3); operations enumerated by solver-decided choices, heap fingerprint oracle")
 NA={
 }
 DEFAULT_NA="check under construction in this session (engine exists; harness not yet registered)"
